@@ -14,6 +14,10 @@ var (
 	SeedFunc func(v int32) int32
 	// ListenersFunc, if non-nil, replaces the (systemd) listeners.
 	ListenersFunc func(l []net.Listener) []net.Listener
+	// ReadWindowFunc, if non-nil, replaces the sender's file read window size
+	// (a tuning knob: with the default of 256 KiB only files larger than that
+	// ever make the window slide).
+	ReadWindowFunc func(blockLength, v int32) int32
 )
 
 func Seed(v int32) int32 {
@@ -28,4 +32,11 @@ func Listeners(l []net.Listener) []net.Listener {
 		return ListenersFunc(l)
 	}
 	return l
+}
+
+func ReadWindow(blockLength, v int32) int32 {
+	if ReadWindowFunc != nil {
+		return ReadWindowFunc(blockLength, v)
+	}
+	return v
 }
